@@ -14,6 +14,9 @@ Three ingredients (see tools/README.md):
                   commuting reordering for all circuits) is compared block by block, gate object
                   by gate object, with the real `block_decomposition(fuse=True/False)` and its
                   helper functions (exhaustive small circuits + seeded random);
+              (f) measurement handling and front layer (props/C09_meas.py): every entry of the real
+                  routed queue of all three routers against `mroute` / `mstarRoute` of
+                  QV/Model/RouterMeas.lean, every `_update_front_layer` against `frontLayer`;
   * search    the property itself on the real routers: connectivity of every two-qubit
               gate, exact operator identity  routed = P·input  on integer data, layout is a
               bijection, wire names / circuit kwargs kept, inputs not mutated, trailing
@@ -1662,5 +1665,5 @@ def run(ctx):
     ctx.sample({"suite": "blocks model", "meaning": "QV.Blocks.blockDecomposition (transliteration of blocks.py with object identities) against the real block_decomposition for fuse=True/False: sorted qubits of every block and the gate objects in it (position in the queue + class/qubits), all X/CNOT circuits on 2 qubits up to 5 gates and 3 qubits up to 3 gates (thorough: 3 qubits up to 4, 4 qubits up to 3), seeded random circuits up to 7 qubits / 30 gates with measurements, refusals (one qubit, three-qubit gate); _find_previous_gates / _find_successive_gates / _gates_on_qubit one by one"})
     ctx.sample({"suite": "reassigned connectivity", "meaning": "one router object, `router.connectivity = G2` between calls (also G1->G2->G1 and construction with None): every call checked against the graph current at that call; stars with every ordered pair of different centres, paths/rings/stars/trees for ShortestPaths and Sabre"})
     ctx.trusted.append("networkx shortest paths / transitive reduction / topological generations (their outputs are validated per run: guards, order check, DAG closure)")
-    ctx.trusted.append("measurements enter the operator identity as a fixed non-commuting 2x2 marker on each measured qubit; register names are compared for trailing measurements only")
+    ctx.trusted.append("measurements enter the operator identity as a fixed non-commuting 2x2 marker on each measured qubit (their data — qubit order, register name, collapse / basis / p0 / p1 — is compared entry by entry by the measurement-entry replay of props/C09_meas.py)")
     ctx.notes.append("all connected graphs on 2-5 nodes (30) x {ShortestPaths, Sabre} with identity / permuted / string labels, paths-rings-stars-grids-trees up to 8 nodes, random circuits <= 25 gates (integer Unitary, named, controlled_by, parametrised), trailing and mid-circuit measurements, Sabre options incl. swap_threshold small enough to force undo + shortest-path fallback, StarConnectivityRouter on every centre position, second and third call of one router object")
